@@ -574,9 +574,10 @@ def check_effect(acc, case) -> list[dict]:
     mk = (acc or Acc(PROPERTY, "replay")).violation
     field, value, base = case["field"], case["value"], case["base"]
     BODY = case.get("body") or BODY_DEFAULT
-    fm_lines = ["---", "myst:", "  " + field + ": " + json.dumps(value), "---", ""]
+    closer = case.get("closer", "---")   # a front-matter block ends with '---' or with YAML's document end marker '...'
+    fm_lines = ["---", "myst:", "  " + field + ": " + json.dumps(value), closer, ""]
     if field == "title_to_header":
-        fm_lines = ["---", "title: FM Title", "myst:", "  " + field + ": " + json.dumps(value), "---", ""]
+        fm_lines = ["---", "title: FM Title", "myst:", "  " + field + ": " + json.dumps(value), closer, ""]
     text_fm = "\n".join(fm_lines) + "\n" + BODY
     k = len(fm_lines)
     # the global spelling: same body, same number of leading lines (a comment-free blank prefix would change nothing
@@ -638,7 +639,8 @@ def sub_effect(acc, shard, nshards, tier, seed):
                 i += 1
                 if i % nshards != shard:
                     continue
-                _record(acc, check_effect(acc, {"field": field, "value": value, "base": base}))
+                # (every third case closes the block with '...')
+                _record(acc, check_effect(acc, {"field": field, "value": value, "base": base, **({"closer": "..."} if i % 3 == 0 else {})}))
     acc.exhaustive = True
 
 
@@ -650,7 +652,7 @@ def effect_case(draw):
     value = draw(st.sampled_from(EFFECT_VALUES[field]))
     base = draw(st.sampled_from(GLOBAL_BASES))
     blocks = draw(mdgen.blocks_st(mdgen.FULL - {"hr"}, wild=False, max_blocks=5))
-    return {"field": field, "value": value, "base": base, "body": mdgen.render(blocks)}
+    return {"field": field, "value": value, "base": base, "body": mdgen.render(blocks), "closer": draw(st.sampled_from(["---", "---", "..."]))}
 
 
 def sub_effect_random(acc, shard, nshards, tier, seed):
